@@ -62,6 +62,9 @@ type Lifter struct {
 	// RecClass maps the Go name of a nested record type to "struct", "message"
 	// or "union" ("" = unknown); supplied by the caller from the schema it built.
 	RecClass func(goName string) string
+	// RecFixed gives the wire size of a struct all of whose fields are
+	// fixed-size (ok=false for any other record).
+	RecFixed func(goName string) (size int, ok bool)
 }
 
 func (l *Lifter) fail(rule, leaf string, pos token.Pos, format string, a ...interface{}) {
